@@ -264,6 +264,6 @@ func TestC04(t *testing.T) {
 		Assumptions: []string{"expected error classes are checked only through the exported Is* helpers; error texts are never compared",
 			"an entity referencing itself through a cascade wiring and cascade cycles are skipped as unspecified"},
 		Gen: genC04Full, Run: runC04,
-		QuickChecks: 500, ThoroughFactor: 20,
+		QuickChecks: 1000, ThoroughFactor: 10,
 	})
 }
